@@ -245,6 +245,7 @@ package parser
 //@ ensures result.Name == ident.Value && result.NodeType == ast.NodeIdent
 
 //@ func (*Parser).parseString
+//@ props C13
 //@ ensures result.Text == stripQuotes(s.Value) && result.NodeType == ast.NodeString
 //@ ensures [C06,string-is-the-text-between-its-quotes] quoted(s.Value) ==> result.Text == s.Value[1:len(s.Value) - 1]
 
